@@ -571,7 +571,8 @@ def malformed_real(m, heralds, user):
 # ------------------------------------------------------------------------------------------------
 # the real code runs in a worker process: a native crash must not take the harness down
 # ------------------------------------------------------------------------------------------------
-REAL_FUNCS = {"run_real": run_real, "direct_oracle": direct_oracle, "malformed_real": malformed_real}
+REAL_FUNCS = {"run_real": run_real, "direct_oracle": direct_oracle, "malformed_real": malformed_real,
+              "run_session": lambda cfg: run_session(cfg)}
 
 
 def _worker_main(conn, seed):
@@ -768,10 +769,12 @@ DEFAULT_PREC = 1e-6
 def gen_trim_config(rng, max_m):
     """a fast-path configuration (Fock members; no detectors or PNR detectors) run at a non-zero precision, with
     member weights spread over several orders of magnitude and, sometimes, a weakly coupling circuit"""
+    prec = rng.choice(PRECS)
+    small = prec in ("default", 1e-6, 1e-4)       # the threshold bites only on tiny weights / weak couplings
     if rng.random() < 0.7:
         cfg = gen_sim_config(rng, max_m)
         # weights over several orders of magnitude: some members fall under max_p * precision
-        if rng.random() < 0.75:
+        if rng.random() < (0.9 if small else 0.6):
             for mb in cfg["members"]:
                 mb["w"] *= rng.choice([1.0, 1.0, 1.0, 0.3, 1e-2, 1e-4, 1e-6, 3e-7, 1e-8])
             tot = sum(mb["w"] for mb in cfg["members"])
@@ -789,7 +792,7 @@ def gen_trim_config(rng, max_m):
     m = cfg["m"]
     if not dets_all_pnr(cfg.get("dets")):
         cfg["dets"] = rng.choice([None, ["pnr" if rng.random() < 0.5 else None for _ in range(m)]])
-    if rng.random() < 0.35:
+    if rng.random() < (0.5 if small else 0.25):
         # weak couplings: output probabilities of a few 1e-6 .. 1e-4, products of them below the tensor threshold
         comps = []
         for _ in range(rng.randint(1, 3)):
@@ -798,7 +801,7 @@ def gen_trim_config(rng, max_m):
             leaf = gens.gen_leaf(rng, m, kinds=("BS", "PERM"))
             comps.insert(rng.randint(0, len(comps)), [rng.randint(0, m - gens.leaf_width(leaf)), leaf])
         cfg["circ"] = {"m": m, "comps": comps}
-    cfg["prec"] = rng.choice(PRECS)
+    cfg["prec"] = prec
     cfg["trim"] = True
     return cfg
 
@@ -943,6 +946,411 @@ def judge_trim(chk, cfg):
             (f"outside the interval proved for the trimming model: {first[1]}" if bad else
              f"trimming model (thresholds as coded) and implementation differ: {first[1]}")
             + f" [precision {cfg['prec']}, threshold {rep['theta']}, gap {gap!r}]")
+
+
+# ------------------------------------------------------------------------------------------------
+# sessions: one long-lived Simulator / Processor, selection changed between queries
+# (PM.C04.simStep / procStep; theorems simulator_selection_history_independent,
+#  processor_selection_history_independent)
+# ------------------------------------------------------------------------------------------------
+def gen_fock_members(rng, m, H):
+    k = rng.randint(1, 3)
+    ws = [rng.random() + 0.05 for _ in range(k)]
+    members, seen = [], set()
+    for w in ws:
+        n = rng.choice([0, H, H + 1, H + 1, H + 2]) if rng.random() < 0.85 else rng.randint(0, H + 2)
+        n = min(n, 4 if m <= 3 else 3)
+        st = gen_tagged_state(rng, m, n, rng.choice([0, 1, 2, 2, 3]))
+        key = json.dumps(st)
+        if key not in seen:
+            seen.add(key)
+            members.append({"w": w, "state": st})
+    tot = sum(mb["w"] for mb in members)
+    for mb in members:
+        mb["w"] /= tot
+    return members
+
+
+def transition_ops(rng, cur, tgt):
+    """simulator API calls that turn the selection `cur` into `tgt` (some redundant, in random order)"""
+    ops = []
+    via_sel = {"t": "sel", "filter": None, "ps": None, "src": None, "heralds": None}
+    use_sel = rng.random() < 0.55
+    if sorted(map(list, tgt["heralds"])) != sorted(map(list, cur["heralds"])) or list(tgt["heralds"]) != list(cur["heralds"]) \
+            or rng.random() < 0.2:
+        if not tgt["heralds"] and rng.random() < 0.7:
+            ops.append({"t": "clearHeralds"})
+        elif use_sel and rng.random() < 0.7:
+            via_sel["heralds"] = tgt["heralds"]
+        else:
+            ops.append({"t": "heralds", "heralds": tgt["heralds"]})
+    if tgt["ps"] != cur["ps"] or rng.random() < 0.2:
+        if tgt["ps"] is None:
+            ops.append({"t": "clearPs"})
+        elif use_sel and rng.random() < 0.7:
+            via_sel["ps"], via_sel["src"] = tgt["psj"], tgt["ps"]
+        else:
+            ops.append({"t": "ps", "ps": tgt["psj"], "src": tgt["ps"]})
+    if tgt["filter"] != cur["filter"] or rng.random() < 0.2:
+        if use_sel and rng.random() < 0.7:
+            via_sel["filter"] = tgt["filter"]
+        else:
+            ops.append({"t": "filter", "k": tgt["filter"]})
+    if tgt["keep"] != cur["keep"] or rng.random() < 0.2:
+        ops.append({"t": "keep", "b": tgt["keep"]})
+    if use_sel:
+        ops.append(via_sel)
+    rng.shuffle(ops)
+    return ops
+
+
+def gen_session_config(rng, max_m):
+    if rng.random() < 0.62:
+        m = rng.randint(2, max_m)
+        cur = {"heralds": [], "ps": None, "psj": True, "filter": 0, "keep": True}
+        steps = []
+        for _ in range(rng.randint(2, 4)):
+            tgt = dict(cur)
+            r = rng.random()
+            if r < 0.6 or not steps:
+                tgt["heralds"] = [] if (cur["heralds"] and rng.random() < 0.2) else \
+                    declare(rng, gen_heralds(rng, m, allow2=True))
+            if rng.random() < 0.5:
+                tgt["ps"], tgt["psj"] = (None, True) if rng.random() < 0.4 else gen_ps(rng, m, rng.randint(0, 1))
+            H = sum(v for _, v in tgt["heralds"])
+            if rng.random() < 0.6:
+                tgt["filter"] = rng.randint(0, 2)
+            if rng.random() < 0.4:
+                tgt["keep"] = not tgt["keep"]
+            members = gen_fock_members(rng, m, H)
+            nin = max(sum(len(x) for x in mb["state"]) for mb in members)
+            steps.append({"ops": transition_ops(rng, cur, tgt), "sel": tgt, "members": members,
+                          "dets": gen_dets(rng, m, tgt["heralds"], nin)})
+            cur = tgt
+        return {"kind": "session", "obj": "sim", "backend": rng.choice(["SLOS", "SLOS", "Naive"]), "m": m,
+                "circ": gen_circuit(rng, m), "steps": steps}
+    base = gen_proc_config(rng, max_m)
+    base.pop("prev", None)
+    if base["noise"] is None and rng.random() < 0.3:
+        base["filter"] = None                         # the automatic filter, stored by the first probs()
+    nin = sum(base["user"])
+    cur = {"ps": base["ps"], "psj": base["psj"], "filter": base["filter"]}
+    steps = [{"ops": [], "sel": dict(cur)}]
+    for _ in range(rng.randint(1, 3)):
+        tgt = dict(cur)
+        ops = []
+        r = rng.random()
+        if r < 0.45 and cur["ps"] is not None:
+            tgt["ps"], tgt["psj"] = None, True
+            ops.append({"t": "clearPs"})
+        elif r < 0.8:
+            tgt["ps"], tgt["psj"] = gen_ps(rng, base["m"], rng.randint(0, 1))
+            ops.append({"t": "ps", "ps": tgt["psj"], "src": tgt["ps"]})
+        elif cur["ps"] is None and rng.random() < 0.5:
+            ops.append({"t": "clearPs"})                   # clearing what is not set: no notification
+        if (rng.random() < 0.5 or not ops) and cur["filter"] is not None:
+            tgt["filter"] = rng.choice([x for x in range(0, nin + 2) if x != cur["filter"]])
+            ops.append({"t": "filter", "k": tgt["filter"]})
+        rng.shuffle(ops)
+        steps.append({"ops": ops, "sel": tgt})
+        cur = tgt
+    return {"kind": "session", "obj": "proc", "backend": base["backend"], "m": base["m"], "circ": base["circ"],
+            "base": base, "steps": steps}
+
+
+def apply_sim_op(sim, op):
+    import perceval as pcvl
+    t = op["t"]
+    if t == "sel":
+        sim.set_selection(min_detected_photons_filter=op["filter"],
+                          postselect=pcvl.PostSelect(op["src"]) if op["src"] else None,
+                          heralds=None if op["heralds"] is None else {int(k): int(v) for k, v in op["heralds"]})
+    elif t == "heralds":
+        sim.set_heralds({int(k): int(v) for k, v in op["heralds"]})
+    elif t == "clearHeralds":
+        sim.clear_heralds()
+    elif t == "ps":
+        sim.set_postselection(pcvl.PostSelect(op["src"]))
+    elif t == "clearPs":
+        sim.clear_postselection()
+    elif t == "filter":
+        sim.set_min_detected_photons_filter(op["k"])
+    elif t == "keep":
+        sim.keep_heralds(op["b"])
+    else:
+        raise ValueError(t)
+
+
+def run_session(cfg):
+    """-> dict(outs=[canon_result per query], U, members=[lean members per query]) or dict(err=…, at=query index)"""
+    import perceval as pcvl
+    from perceval.simulators import Simulator
+    circ = build_circuit(cfg["circ"])
+    outs, mems = [], []
+    at = 0
+    try:
+        if cfg["obj"] == "sim":
+            sim = Simulator(pcvl.BackendFactory.get_backend(cfg["backend"]))
+            sim.set_circuit(circ)
+            sim.set_precision(0)
+            for at, step in enumerate(cfg["steps"]):
+                for op in step["ops"]:
+                    apply_sim_op(sim, op)
+                outs.append(canon_result(sim.probs_svd(svd_of(step["members"]), build_dets(step["dets"]))))
+                mems.append([{"w": mb["w"], "groups": groups_of(mb["state"])} for mb in step["members"]])
+            U = np.array(circ.compute_unitary(), dtype=complex)
+        else:
+            base = cfg["base"]
+            noise = pcvl.NoiseModel(**base["noise"]) if base["noise"] else None
+            p = pcvl.Processor(cfg["backend"], cfg["m"], noise=noise)
+            p.add(0, circ)
+            dets = base.get("dets")
+
+            def add_dets():
+                for k, d in enumerate(dets or []):
+                    if d is not None:
+                        p.add(k, build_det(d))
+
+            if base.get("dets_first"):
+                add_dets()
+            for k, v in base["heralds"]:
+                p.add_herald(k, v)
+            if not base.get("dets_first"):
+                add_dets()
+            if base["ps"]:
+                p.set_postselection(pcvl.PostSelect(base["ps"]))
+            if base["filter"] is not None:
+                p.min_detected_photons_filter(base["filter"])
+            p.with_input(pcvl.BasicState(base["user"]))
+            for at, step in enumerate(cfg["steps"]):
+                for op in step["ops"]:
+                    if op["t"] == "ps":
+                        p.set_postselection(pcvl.PostSelect(op["src"]))
+                    elif op["t"] == "clearPs":
+                        p.clear_postselection()
+                    elif op["t"] == "filter":
+                        p.min_detected_photons_filter(op["k"])
+                    else:
+                        raise ValueError(op["t"])
+                outs.append(canon_result(p.probs(precision=0)))
+                lm = []
+                for sv, pr in p.source_distribution.items():
+                    assert len(sv) == 1
+                    lm.append({"w": float(pr), "groups": groups_of(tags_of(sv[0]))})
+                mems.append(lm)
+            U = np.array(p.linear_circuit().compute_unitary(), dtype=complex)
+    except Exception as e:                       # noqa: BLE001 — every exception is an observation
+        return {"err": type(e).__name__, "msg": str(e)[:300], "at": at}
+    return {"outs": outs, "U": U, "members": mems}
+
+
+def lean_op(op):
+    return {k: v for k, v in op.items() if k != "src"}
+
+
+def session_request(cfg, real):
+    ops = []
+    nmax = max([sum(map(sum, mb["groups"])) for lm in real["members"] for mb in lm] + [0])
+    if cfg["obj"] == "proc":
+        base = cfg["base"]
+        for k, v in base["heralds"]:
+            ops.append({"t": "herald", "k": k, "v": v})
+        if base.get("dets"):
+            ops.append({"t": "dets", "dets": lean_dets(base["dets"], nmax)})
+        if base["ps"]:
+            ops.append({"t": "ps", "ps": base["psj"]})
+        if base["filter"] is not None:
+            ops.append({"t": "filter", "k": base["filter"]})
+    idx = []
+    for step, lm in zip(cfg["steps"], real["members"]):
+        ops.extend(lean_op(op) for op in step["ops"])
+        q = {"t": "probs", "members": [{"w": core.rat(mb["w"]), "groups": mb["groups"]} for mb in lm]}
+        if cfg["obj"] == "sim":
+            q["dets"] = lean_dets(step["dets"], nmax)
+        else:
+            q["autoN"] = sum(cfg["base"]["user"]) if cfg["base"]["noise"] is None else None
+        idx.append(len(ops))
+        ops.append(q)
+    return {"op": "session", "kind": cfg["obj"], "m": cfg["m"], "U": core.mat(real["U"].tolist()), "ops": ops}, idx
+
+
+def single_of(cfg, j):
+    """the j-th query of a session as a request to a FRESH object (the existing single-request configuration)"""
+    step = cfg["steps"][j]
+    if cfg["obj"] == "sim":
+        return dict(step["sel"], kind="sim", backend=cfg["backend"], m=cfg["m"], circ=cfg["circ"],
+                    members=step["members"], dets=step["dets"])
+    one = dict(cfg["base"], **step["sel"])
+    if one["filter"] is None:
+        one["filter"] = None
+    return one
+
+
+def judge_session(chk, cfg):
+    """-> None or (kind, signature, what)"""
+    entry = "Processor.probs" if cfg["obj"] == "proc" else "Simulator.probs_svd"
+    try:
+        real = chk.real.call("run_session", cfg)
+    except Crash as e:
+        if "no answer" in e.how:
+            return ("broken", "real-code-timeout", f"{entry} in a session: {e.how}")
+        return ("violation", "native-crash", f"{entry} on a reused object (session of {len(cfg['steps'])} queries): {e.how}")
+    if "err" in real:
+        return ("violation", "raises-" + real["err"],
+                f"{entry} (query {real['at'] + 1} of a session on one object) raised {real['err']}: {real['msg']}")
+    req, idx = session_request(cfg, real)
+    rep = chk.lean.ask(req)
+    if "err" in rep:
+        return ("broken", "lean-rejects", f"driver rejected the session: {rep['err']}")
+    chk.last_retained = 0.0
+    for j, (obs, i) in enumerate(zip(real["outs"], idx)):
+        o = rep["outs"][i]
+        if o is None or "exc" in o:
+            return ("broken", "session-model", f"the model answers query {j + 1} with {o}")
+
+        def out_of(x):
+            return {"results": dist_of_json(x["results"]), "phys": Fraction(x["phys"]), "logical": Fraction(x["logical"])}
+
+        mach, stateless = out_of(o["machine"]), out_of(o["stateless"])
+        if mach != stateless:
+            return ("broken", "session-machine-vs-theorem",
+                    f"query {j + 1}: the state machine and the stateless model of the selection in force differ")
+        retained = float(Fraction(o["retained"]))
+        chk.last_retained = max(chk.last_retained, retained)
+        obs2, mm = dict(obs), dict(mach)
+        if retained <= TINY:
+            obs2["results"], mm["results"] = ({} if retained >= ZERO else obs["results"]), {}
+        sp = float(Fraction(o["specPhys"]))
+        if 0 < sp <= TINY:
+            obs2 = dict(obs2, logical=0.0, **{"global": None})
+            mm["logical"] = Fraction(0)
+        bad = compare(obs2, mm)
+        if j > 0 and retained > 1e-13:
+            chk.branch("session-later-query-retains")
+        if not bad:
+            continue
+        # the property evaluated without Lean: a fresh object given only the selection in force
+        one = single_of(cfg, j)
+        try:
+            fresh = chk.real.call("run_real", one)
+        except Crash as e:
+            return crash_verdict(one, e, entry)
+        except Exception as e:  # noqa: BLE001
+            return ("broken", "direct-oracle-crash", f"{type(e).__name__}: {e}")
+        if "err" in fresh:
+            return ("broken", "fresh-object-raises", f"fresh object for query {j + 1}: {fresh['err']}: {fresh['msg']}")
+        f2 = dict(fresh["obs"])
+        if retained <= TINY:
+            f2["results"] = obs2["results"]
+        if 0 < sp <= TINY:
+            f2 = dict(f2, logical=0.0)
+        dbad = compare(obs2, {"results": f2["results"], "phys": f2["phys"], "logical": f2["logical"]})
+        if dbad:
+            return ("violation", "history-dependent-" + dbad[0][0],
+                    f"query {j + 1} of a session on one {'Processor' if cfg['obj'] == 'proc' else 'Simulator'}: "
+                    f"{dbad[0][0]} differs from what a fresh object given the same selection "
+                    f"({ {k: v for k, v in cfg['steps'][j]['sel'].items() if k != 'psj'} }) returns: {dbad[0][1]}")
+        return ("broken", "session-model-vs-code:" + bad[0][0],
+                f"query {j + 1}: state-machine model and implementation differ ({bad[0][1]}) although a fresh object "
+                f"agrees with the reused one")
+    return None
+
+
+def session_branches(chk, cfg):
+    chk.branch("session-" + cfg["obj"])
+    steps = cfg["steps"]
+    if cfg["obj"] == "sim":
+        for a, b in zip(steps, steps[1:]):
+            ha, hb = a["sel"]["heralds"], b["sel"]["heralds"]
+            if ha and dets_all_pnr(a["dets"]) and (not hb or not dets_all_pnr(b["dets"])):
+                chk.branch("session-mask-mode-switched-off")
+            if ha and hb and sorted(map(list, ha)) != sorted(map(list, hb)) and dets_all_pnr(a["dets"]) \
+                    and dets_all_pnr(b["dets"]):
+                chk.branch("session-other-heralds-under-mask")
+            if ha and dets_all_pnr(a["dets"]) and any(not any(mb["state"]) or sum(len(x) for x in mb["state"]) == 0
+                                                      for mb in b["members"]):
+                chk.branch("session-vacuum-after-masked-query")
+            if a["sel"]["ps"] and not b["sel"]["ps"]:
+                chk.branch("session-postselection-cleared")
+        for st in steps:
+            for op in st["ops"]:
+                chk.branch("session-op-" + op["t"])
+                if op["t"] == "sel" and op["heralds"] is None and op["ps"] is None and op["filter"] is not None:
+                    chk.branch("session-set_selection-filter-only")
+    else:
+        for a, b in zip(steps, steps[1:]):
+            if a["sel"]["ps"] and not b["sel"]["ps"]:
+                chk.branch("session-processor-postselection-cleared")
+            if a["sel"]["ps"] != b["sel"]["ps"] and b["sel"]["ps"]:
+                chk.branch("session-processor-postselection-replaced")
+            if a["sel"]["filter"] != b["sel"]["filter"]:
+                chk.branch("session-processor-filter-changed")
+        if cfg["base"]["filter"] is None:
+            chk.branch("session-processor-automatic-filter")
+
+
+def shrink_session(chk, cfg, sig):
+    def fails(c):
+        try:
+            r = judge_session(chk, c)
+        except core.LeanError:
+            raise
+        except Exception:  # noqa: BLE001
+            return False
+        return r is not None and r[1] == sig
+
+    cur = copy.deepcopy(cfg)
+    budget = 25
+    changed = True
+    while changed and budget > 0:
+        changed = False
+        # drop a whole step (its operations are kept: they still shape the state), then single operations
+        for i in range(len(cur["steps"]) - 1):
+            c = copy.deepcopy(cur)
+            nxt = c["steps"][i + 1]
+            nxt["ops"] = c["steps"][i]["ops"] + nxt["ops"]
+            del c["steps"][i]
+            budget -= 1
+            if cur["obj"] == "sim" and budget > 0 and fails(c):
+                cur, changed = c, True
+                break
+        if changed:
+            continue
+        if len(cur["circ"]["comps"]) > 1:
+            for i in range(len(cur["circ"]["comps"])):
+                c = copy.deepcopy(cur)
+                del c["circ"]["comps"][i]
+                budget -= 1
+                if budget > 0 and fails(c):
+                    cur, changed = c, True
+                    break
+    return cur
+
+
+def handle_session(chk, cfg, do_shrink=True):
+    session_branches(chk, cfg)
+    chk.count("kind", "session/" + cfg["obj"] + "/" + cfg["backend"])
+    chk.count("session_queries", len(cfg["steps"]))
+    chk.last_retained = 0.0
+    res = judge_session(chk, cfg)
+    sig = ("session", cfg["obj"], cfg["backend"], cfg["m"],
+           json.dumps([[lean_op(o) for o in st["ops"]] for st in cfg["steps"]], sort_keys=True),
+           json.dumps([st.get("dets") for st in cfg["steps"]]))
+    chk.case(sig, nontrivial=chk.last_retained > 1e-13,
+             sample={"kind": "session", "obj": cfg["obj"], "m": cfg["m"],
+                     "selections": [{k: v for k, v in st["sel"].items() if k != "psj"} for st in cfg["steps"]]})
+    if res is not None:
+        kind, sg, what = res
+        seen = chk.__dict__.setdefault("_c04_shrunk", set())
+        first = (kind, sg) not in seen
+        seen.add((kind, sg))
+        small = shrink_session(chk, cfg, sg) if do_shrink and first else cfg
+        r2 = judge_session(chk, small)
+        if r2 is not None and r2[1] == sg:
+            what = r2[2]
+        else:
+            small = cfg
+        chk.fail(kind, sg, what, {"config": small})
 
 # ------------------------------------------------------------------------------------------------
 def effective_filter(cfg):
@@ -1297,6 +1705,8 @@ def shape_branches(chk, cfg):
 
 
 def handle(chk, cfg, do_shrink=True):
+    if cfg.get("kind") == "session":
+        return handle_session(chk, cfg, do_shrink)
     hs = sorted(list(h) for h in cfg["heralds"])
     H = sum(v for _, v in hs)
     shape_branches(chk, cfg)
@@ -1425,7 +1835,14 @@ REQUIRED = ["mask-path", "no-heralds", "herald-in-the-middle", "adjacent-heralds
             # probability trimming at a non-zero precision
             "trim-case", "trim-default-precision", "trim-processor", "trim-member-dropped", "trim-tensor-pruned",
             "trim-tensor-pruned-under-mask", "trim-bites-with-retained-mass", "trim-changes-the-answer",
-            "trim-changes-the-answer-at-default-precision"]
+            "trim-changes-the-answer-at-default-precision",
+            # sessions on one object
+            "session-sim", "session-proc", "session-later-query-retains", "session-mask-mode-switched-off",
+            "session-other-heralds-under-mask", "session-vacuum-after-masked-query", "session-postselection-cleared",
+            "session-op-sel", "session-op-heralds", "session-op-clearHeralds", "session-op-ps", "session-op-clearPs",
+            "session-op-filter", "session-op-keep", "session-set_selection-filter-only",
+            "session-processor-postselection-cleared", "session-processor-postselection-replaced",
+            "session-processor-filter-changed", "session-processor-automatic-filter"]
 
 
 def run(chk: core.Check):
@@ -1471,6 +1888,8 @@ def run(chk: core.Check):
             handle(chk, gen_proc_config(rng, max_m))
         for _ in range(chk.pick(320, 2600)):
             handle(chk, gen_trim_config(rng, max_m))
+        for _ in range(chk.pick(220, 1800)):
+            handle(chk, gen_session_config(rng, max_m))
         malformed(chk, rng, chk.pick(30, 300))
         chk.extra["real_code_worker_crashes"] = chk.real.crashes
     finally:
